@@ -535,6 +535,25 @@ def _fields(repo, rep):
                   detail="only %s.end() of the last match is used: "
                          "characters that match no attribute are dropped"
                          % lv)
+        # the prefix pattern's suffix group is optional (an end tag need not
+        # be terminated: '</a' + blanks); with no attribute match either,
+        # the text after the name has to become the suffix all the same
+        inloop = {id(x) for x in ast.walk(loops[0])}
+        tail = [n for n in ast.walk(mt.node) if isinstance(n, ast.Assign)
+                and id(n) not in inloop
+                and src(n.targets[0]) == "d['suffix']"
+                and any(isinstance(x, ast.Name) and x.id == "token"
+                        for x in ast.walk(n.value))]
+        guarded = [n for n in tail if any(
+            "suffix" in src(t_) and "None" in src(t_)
+            for t_, v_ in L.guards_of(n, mt.node)
+            if not isinstance(t_, ast.ExceptHandler))]
+        rep.check(bool(guarded), "R03.3", mt.qualname, "when neither the "
+                  "prefix pattern nor an attribute match supplies a suffix "
+                  "(unterminated end tag followed by blanks), the rest of "
+                  "the token is the suffix", construct="suffix-total",
+                  where=L.where(mt), detail="%d assignment(s) outside the "
+                  "attribute loop" % len(tail))
     # an end tag is dissected by the same function: what it yields as
     # 'attrs' must be emitted or rejected
     used = set()
